@@ -8,4 +8,5 @@ import (
 	_ "verifharness/internal/props/c06"
 	_ "verifharness/internal/props/c15"
 	_ "verifharness/internal/props/c16"
+	_ "verifharness/internal/props/c18"
 )
